@@ -26,6 +26,7 @@ from __future__ import annotations
 
 import re
 import sys
+import warnings
 
 from .common import A, parse_sexp, sx
 
@@ -303,7 +304,10 @@ def extract(dc, text: str):
     P.Expression, P.ast = RecExpression, RecAst
     outcome = None
     try:
-        Rec(cs, compiled=False).parse(text)
+        with warnings.catch_warnings():
+            # ast.literal_eval of an odd #define value ("0x", "7up") makes the compiler print a SyntaxWarning
+            warnings.simplefilter("ignore")
+            Rec(cs, compiled=False).parse(text)
     except Exception as e:  # noqa: BLE001
         outcome = (type(e).__name__, str(e))
     finally:
